@@ -578,6 +578,7 @@ func (d *decoder[T]) kSlice(f *decFnInfo, rv reflect.Value) {
 	var rv9 reflect.Value
 
 	rvlen := rvLenSlice(rv)
+	rvlen0 := rvlen // elements at or beyond the original length hold no prior value
 	rvcap := rvCapSlice(rv)
 	maxInitLen := d.maxInitLen()
 	hasLen := containerLenS >= 0
@@ -684,7 +685,9 @@ func (d *decoder[T]) kSlice(f *decFnInfo, rv reflect.Value) {
 		// but if not, we should treat it as each element is *int, and decode into it.
 
 		rv9 = rvArrayIndex(rv, j, f.ti, true)
-		if elemReset {
+		if elemReset || j >= rvlen0 {
+			// beyond the original length the backing array holds stale capacity contents, or
+			// (after growslice, for pointer-free element types) memory that was never cleared
 			rvSetZero(rv9)
 		}
 		if d.d.TryNil() {
